@@ -22,7 +22,7 @@ def integerDtypeIntervals : List DtypeRow := [
   ⟨0, 18446744073709551616, "uint64", 0, 18446744073709551615⟩,
   ⟨(-128), 128, "int8", (-128), 127⟩,
   ⟨(-32768), 32768, "int16", (-32768), 32767⟩,
-  ⟨(-2147483648), 4294967296, "int32", (-2147483648), 2147483647⟩,
+  ⟨(-2147483648), 2147483648, "int32", (-2147483648), 2147483647⟩,
   ⟨(-9223372036854775808), 9223372036854775808, "int64", (-9223372036854775808), 9223372036854775807⟩
 ]
 
